@@ -20,28 +20,41 @@ META = {
 
 
 def run(ctx):
+    import os
+    if os.environ.get("VERIF_SKIP_MC") == "1":   # development aid for mutation runs only
+        return conformance(ctx)
     # 1. design level: the transcribed algorithm against the reference, exhaustively
     ctx.tlc_mc("MC_Overlay.tla", "Overlay_quick_layers.cfg", timeout=600)
     ctx.tlc_mc("MC_Overlay.tla", "Overlay_quick_deep.cfg", timeout=600)
     if ctx.thorough():
         ctx.tlc_mc("MC_Overlay.tla", "Overlay_thorough.cfg", timeout=2400)
         ctx.tlc_mc("MC_Overlay.tla", "Overlay_thorough23.cfg", timeout=2400)
+        ctx.tlc_mc("MC_Overlay.tla", "Overlay_thorough_moved.cfg", timeout=2400)
     # anti-vacuity: three deviations of the algorithm must break agreement with the reference
     ctx.tlc_mc("MC_Overlay.tla", "Overlay_dev_first.cfg", timeout=300, expect_violation="Agree", count=False)
     ctx.tlc_mc("MC_Overlay.tla", "Overlay_dev_fast.cfg", timeout=300, expect_violation="Agree", count=False)
     if ctx.thorough():
         ctx.tlc_mc("MC_Overlay.tla", "Overlay_dev_reseek.cfg", timeout=300, expect_violation="Agree", count=False)
+        # F17 at design level: UpdateWith in place + a commit onto a state that moved on
+        ctx.tlc_mc("MC_Overlay.tla", "Overlay_dev_stale.cfg", timeout=600, expect_violation="Agree", count=False)
+    conformance(ctx)
+
+
+def conformance(ctx):
     # 2. conformance: real overlays and iterators
     drv = ctx.go_build("overlay")
     nscen, nops = (1500, 120) if ctx.thorough() else (160, 90)
     rc, out, summ = ctx.driver(drv, [ctx.work, nscen, nops], timeout=1200)
     if rc != 0:
         raise vlib.Infra("overlay driver failed rc=%d:\n%s" % (rc, out[-3000:]))
-    main = ctx.work + "/overlay.ndjson"
-    ctx.sample_trace_lines(main, 5)
-    res = ctx.tlc_trace("TraceOverlay.tla", "TraceOverlay.cfg", main, timeout=2400)
-    if not res["accepted"]:
-        ctx.report_rejection(main, res)
+    for i in range(1, int(summ.get("files", 0)) + 1):
+        main = ctx.work + "/overlay-%d.ndjson" % i
+        if i == 1:
+            ctx.sample_trace_lines(main, 5)
+        res = ctx.tlc_trace("TraceOverlay.tla", "TraceOverlay.cfg", main, timeout=2400)
+        if not res["accepted"]:
+            ctx.report_rejection(main, res)
+            break
     # cursor reuse after the transaction's commit (the Overlay object is changed in place by
     # UpdateWith at the pinned commit: finding F17) is validated separately
     stale = ctx.work + "/stale.ndjson"
@@ -50,7 +63,8 @@ def run(ctx):
         ctx.report_rejection(stale, res, key="stale-iterator-after-commit")
     ctx.cov["real_iterator_steps"] = summ.get("iterator_steps", 0) + summ.get("stale_steps", 0)
     ctx.cov["real_scenarios"] = summ.get("scenarios", 0) + summ.get("stale_scenarios", 0)
-    for k in ("fam_plain", "fam_nasty", "fam_multi", "fam_long"):
+    for k in ("fam_plain", "fam_nasty", "fam_multi", "fam_long", "steps_over", "steps_simple", "steps_bt",
+              "steps_layer", "steps_ib", "steps_skipscan"):
         ctx.cov[k] = summ.get(k, 0)
     ctx.assumptions += [
         "keys are (prefix, suffix) rank pairs; each scenario's rank -> concrete key table is asserted strictly monotone and consistent with SplitPrefixSuffix at start-up",
